@@ -2,6 +2,7 @@
 from __future__ import annotations
 
 import argparse
+import contextlib
 import importlib
 import json
 import os
@@ -37,7 +38,8 @@ def main() -> int:
         if a.replay:
             rep = json.loads(open(a.replay).read())
             return mod.replay(ctx, rep)
-        mod.run(ctx)
+        with contextlib.redirect_stdout(sys.stderr):      # code under test may print; stdout carries verdict lines only
+            mod.run(ctx)
         return finish(ctx, getattr(mod, "LEVEL", LEVEL[pid]))
     except MachineryError as e:
         print(f"MACHINERY-FAILURE property={pid}: {e}", file=sys.stderr)
